@@ -126,3 +126,38 @@ Lemma fork_without_reset_wait_raises :
       end
   end.
 Proof. vm_compute. repeat split; reflexivity. Qed.
+
+(* ------------------------------------------------------------------ the generic theorems for the reset the code registers *)
+Lemma gen_reset_true : forall named, gen_reset named = true.
+Proof. intros named. apply gen_after_fork_reset. Qed.
+
+Theorem G_fork_is_late_start : forall named code ss scripts acts g es,
+    frun code (gen_reset named) (init_sys code ss scripts) acts = (g, es, true) ->
+    run code (init_sys code ss (scripts ++ forked_of acts)) (steps_of acts) = (g, es, true).
+Proof. intros named. rewrite gen_reset_true. intros code. apply fork_is_late_start. Qed.
+
+Theorem G_rlock_mutex_fork : forall named code s ss scripts acts g es ok i j ti tj,
+    recur (nth s ss dsem) = true -> val (nth s ss dsem) = 1 ->
+    frun code (gen_reset named) (init_sys code ss scripts) acts = (g, es, ok) ->
+    nth_error (thr g) i = Some ti -> nth_error (thr g) j = Some tj ->
+    0 < hs s ti -> 0 < hs s tj -> i = j.
+Proof. intros named. rewrite gen_reset_true. intros code. apply rlock_mutex_fork. Qed.
+
+Theorem G_lock_mutex_fork : forall named code s ss scripts acts g es ok i j ti tj,
+    recur (nth s ss dsem) = false -> val (nth s ss dsem) = 1 ->
+    frun code (gen_reset named) (init_sys code ss scripts) acts = (g, es, ok) ->
+    (forall t, In t (thr g) -> 0 <= hs s t) ->
+    nth_error (thr g) i = Some ti -> nth_error (thr g) j = Some tj ->
+    0 < hs s ti -> 0 < hs s tj -> i = j.
+Proof. intros named. rewrite gen_reset_true. intros code. apply lock_mutex_fork. Qed.
+
+Theorem G_sem_bound_fork : forall named code s ss scripts acts g es ok,
+    recur (nth s ss dsem) = false -> 0 <= val (nth s ss dsem) ->
+    frun code (gen_reset named) (init_sys code ss scripts) acts = (g, es, ok) ->
+    0 <= vs s g /\ vs s g + sumz (hs s) (thr g) = val (nth s ss dsem).
+Proof. intros named. rewrite gen_reset_true. intros code. apply sem_bound_fork. Qed.
+
+Theorem G_fork_child_holds_nothing : forall named code g i sc g',
+    fork code (gen_reset named) g i sc = Some g' ->
+    exists c, thr g' = thr g ++ [c] /\ sems g' = sems g /\ forall s, hs s c = 0.
+Proof. intros named. rewrite gen_reset_true. intros code. apply fork_child_holds_nothing. Qed.
